@@ -147,9 +147,10 @@ off64_t _GD_DoSeek(DIRFILE *D, gd_entry_t *E, const struct encoding_t *enc,
     off64_t offset, unsigned int mode)
 {
   off64_t pos;
-  const int oop_write = ((enc->flags & GD_EF_OOP) &&
-      (E->e->u.raw.file[1].idata >= 0)) ? 1 : 0;
   const int temp = (mode & GD_FILE_TEMP) ? 1 : 0;
+  /* seeking in a temporary file is never an out-of-place copy-forward */
+  const int oop_write = (!temp && (enc->flags & GD_EF_OOP) &&
+      (E->e->u.raw.file[1].idata >= 0)) ? 1 : 0;
   const int which = (oop_write || temp) ? 1 : 0;
 
   dtrace("%p, %p, %p, %" PRId64 ", 0x%X", D, E, enc, (int64_t)offset, mode);
